@@ -9,7 +9,7 @@ import re
 from vlib import *  # noqa
 
 
-def run_specs(prop, specs, tag):
+def run_specs(prop, specs, tag, coqeval=0):
     wd = workdir(prop)
     sp = os.path.join(wd, "gspecs_%s.txt" % tag)
     with open(sp, "w") as f:
@@ -38,6 +38,7 @@ def run_specs(prop, specs, tag):
     def run_shard(p):
         return sh([DRIVER, "geom", p], timeout=3000)
 
+    verdicts = {}
     with concurrent.futures.ThreadPoolExecutor(max_workers=16) as ex:
         for rc, out in ex.map(run_shard, shards):
             if rc != 0:
@@ -46,12 +47,26 @@ def run_specs(prop, specs, tag):
             for l in out.split("\n"):
                 if l.startswith("R "):
                     spec, _, verdict = l[2:].partition(" | ")
+                    verdicts[spec] = verdict
                     if verdict.startswith("OK"):
                         res["bit" if "strength=bit" in verdict else "tol"] += 1
                         m = re.search(r"band=(\d+)", verdict)
                         res["band"] += int(m.group(1)) if m else 0
                     else:
                         res["mismatches"].append(dict(engine="geom", case=spec, what="model/implementation disagree: " + verdict[:700]))
+    # the same model evaluated inside Coq (no extraction, no OCaml) on a sample of the hard-state cases
+    if coqeval and shards:
+        import eng_coqeval
+        per = max(1, coqeval // min(len(shards), 4))
+        tot = dict(cases=0, agree=0, problems=[])
+        for p in shards[:4]:
+            r = eng_coqeval.run_geom(prop, p, per, verdicts)
+            tot["cases"] += r["cases"]
+            tot["agree"] += r["agree"]
+            tot["problems"] += r["problems"]
+        res["coq_eval"] = tot
+        for pr in tot["problems"]:
+            res["mismatches"].append(dict(engine="geom", case="(in-Coq evaluation)", what=pr))
     for p in shards:
         os.remove(p)
     return res
@@ -67,7 +82,8 @@ def run(prop, conf, params, tier, seed, broken_gate):
     for focus, n in params[tier]:
         rc, out = sh([HARNESS, "geom-gen", "--focus", focus, "--seed", str(seed), "--count", str(n)], timeout=600)
         specs += [l for l in out.split("\n") if l.startswith("geom ")]
-    r = run_specs(prop, specs, "main")
+    coqeval = params.get("coqeval_" + tier, 0)
+    r = run_specs(prop, specs, "main", coqeval=coqeval)
     searched = len(specs)
     relevant = [f for f in r["findings"] if prop in f["properties"]]
     if (r["mismatches"] or broken_gate) and not [f for f in relevant if "class=" not in f["what"]]:
@@ -113,6 +129,8 @@ def run(prop, conf, params, tier, seed, broken_gate):
         findings=relevant, mismatches=r["mismatches"], distribution=dist,
         correspondence=dict(engine="geom", cases=len(r["metas"]), bit_exact=r["bit"], within_rounding=r["tol"],
                             tolerance_band_decisions=r["band"], disagreements=len(r["mismatches"]),
+                            evaluated_inside_coq=r.get("coq_eval", {}).get("cases", 0),
+                            inside_coq_agree=r.get("coq_eval", {}).get("agree", 0),
                             strength="placements, images, areas and scores bit-exact (signed zeros identified) or within 1e-12; "
                                      "booleans equal unless the oracle separation is within 1e-9"),
         searched=searched, notes=[])
